@@ -84,6 +84,13 @@ func factsOf(conds []Cond, about ...*Val) []intFact {
 			fs = append(fs, intFact{G: g, Lo: i64(0)})
 		case "==":
 			fs = append(fs, intFact{G: g, Lo: i64(0), Hi: i64(0)})
+		case "!=":
+			// x != 0 for a quantity that is never negative (a length, an unsigned value): x >= 1
+			for side := 0; side < 2; side++ {
+				if k, isC := v.Args[1-side].Int64(); isC && k == 0 && nonNegative(v.Args[side], nil) {
+					fs = append(fs, intFact{G: affOf(v.Args[side]), Lo: i64(1)})
+				}
+			}
 		}
 	}
 	seen := map[string]bool{}
@@ -555,6 +562,9 @@ func (s *safety) dischargePanicSite(p *Path, ix *pathIndex, e *Event, conds []Co
 		return false, "repeat count " + e.Args[0].Pretty() + " may be negative"
 	case "assert":
 		x := stripCT(e.Args[0])
+		for x.Op == "tassert" && x.Name == "" && len(x.Args) == 1 {
+			x = stripCT(x.Args[0]) // an assertion on the result of an earlier (discharged) assertion of the same value
+		}
 		if x.Op == "lookup" && x.Args[1].IsConst() && s.a.isRegistryMap(x.Args[0]) && s.a.RegistryStartup {
 			name := strings.Trim(x.Args[1].C.ExactString(), "\"")
 			if svc := s.a.U.ServiceByName(name); svc != nil {
